@@ -1,1 +1,14 @@
-fn main(){}
+use verif_core::*;
+
+mod props;
+
+fn main() {
+    install_panic_hook();
+    let args = parse_args();
+    if let Err(e) = oracle::self_test() {
+        eprintln!("oracle self-test failed: {e}");
+        std::process::exit(2);
+    }
+    let code = dispatch(&args, props::table());
+    std::process::exit(code);
+}
